@@ -186,6 +186,7 @@ let () =
             | "tpx" -> Explore.tpx_case f
             | "tp" -> Explore.tpx_case [| "tpx"; (if Array.exists (fun x -> x = "cfg=a") f then "a" else "f"); f.(1) |]
             | "bs" -> Explore.bs_case f
+            | "sd" -> Explore.sd_case f
             | x when String.length x > 5 && String.sub x 0 5 = "spec:" ->
                 spec_case (String.sub x 5 (String.length x - 5)) f
             | x -> "UNKNOWN-EXECUTOR " ^ x
